@@ -75,6 +75,24 @@ def requests(tier, rng):
         for (seedhex, nonce) in tight["streams"][eta][: (4 if tier == "quick" else 12)]:
             for s in sets:
                 L.append("poly::%s::uniform_eta %s %d" % (s, seedhex, nonce))
+    # ExpandMask at the very ends of its range (+gamma1: stream field 0; -gamma1+1: all ones), about 2^-10 / 2^-12 of the
+    # polynomials: nonces found once by search for the fixed seed 00 01 .. 3f
+    g1x = tight.get("gamma1_extreme", {})
+    for bits, sets in (("18", ("lvl2", "ml_dsa_44")), ("20", ("lvl3", "lvl5", "ml_dsa_65", "ml_dsa_87"))):
+        e = g1x.get(bits)
+        if e:
+            for nonce in e["plus_gamma1"][: (3 if tier == "quick" else 6)] + e["minus_gamma1_plus_1"][: (3 if tier == "quick" else 6)]:
+                for s in sets:
+                    L.append("poly::%s::uniform_gamma1 %s %d" % (s, e["seed"], nonce))
+    # runs of out-of-range candidates (1, 2, 3, 5 in a row) at the start, in the middle and at the end of a rej_uniform buffer
+    for run in (1, 2, 3, 5):
+        for where in ("start", "mid", "end"):
+            good = [bytes([rng.randrange(256), rng.randrange(256), rng.randrange(0x7F)]) for _ in range(40)]
+            bad = [bytes([0xFF, 0xFF, 0x7F])] * run
+            blocks = bad + good if where == "start" else (good[:20] + bad + good[20:] if where == "mid" else good + bad)
+            b = b"".join(blocks)
+            for alen in (256, len(good), len(good) - 1, 21):
+                L.append("poly::rej_uniform %d %d %s %d" % (alen, max(alen, 1), hx(b), len(b)))
     for lv in ("lvl2", "lvl3", "lvl5"):
         for _ in range(1 if tier == "quick" else 6):
             seed = R(64)
